@@ -54,9 +54,20 @@ func (impl Implementation) Dorgbr(vect lapack.GenOrtho, m, n, k int, a []float64
 	}
 
 	// Quick return if possible.
-	work[0] = 1
 	if m == 0 || n == 0 {
+		work[0] = 1
 		return
+	}
+
+	if lwork != -1 {
+		switch {
+		case len(a) < (m-1)*lda+n:
+			panic(shortA)
+		case wantq && len(tau) < min(m, k):
+			panic(shortTau)
+		case !wantq && len(tau) < min(n, k):
+			panic(shortTau)
+		}
 	}
 
 	// The workspace queries must not look at a, tau or lda: a caller that is
@@ -79,15 +90,6 @@ func (impl Implementation) Dorgbr(vect lapack.GenOrtho, m, n, k int, a []float64
 	if lwork == -1 {
 		work[0] = float64(lworkopt)
 		return
-	}
-
-	switch {
-	case len(a) < (m-1)*lda+n:
-		panic(shortA)
-	case wantq && len(tau) < min(m, k):
-		panic(shortTau)
-	case !wantq && len(tau) < min(n, k):
-		panic(shortTau)
 	}
 
 	if wantq {
